@@ -9,7 +9,7 @@ CONSTANTS
   Mode = "hist"
   HashCache = "none"
   LazyHash = "getter"
-  ObsKinds <- ObsEffects
+  ObsKinds <- NoObs
   EmitLazy = FALSE
   CopyViaCtor = FALSE
   Emit = FALSE
